@@ -15,7 +15,7 @@ LEVEL_TEXT = ("Runtime monitoring with a metamorphic oracle on recorded executio
               "on the sphere must be symmetric about both axes.")
 LEVEL_NOTE = "Trusted: rotation/shift of the inputs in floating point perturbs them by a few ulp; iterative/truncating solvers (Multisphere, T-matrix) get tolerances tied to their own convergence settings."
 TECHNIQUE = "runtime monitoring: metamorphic relations (shift, rotation, mirror, symmetry) between recorded executions of the real solvers"
-RULE = ("configs from 11 (scatterer, theory) kinds; rotation angles uniform in [0,2pi) (pi only for T-matrix, whose "
+RULE = ("configs from 11 (scatterer, theory) kinds (every fourth cluster built along the coordinate axes: members share coordinates exactly); rotation angles uniform in [0,2pi) (pi only for T-matrix, whose "
         "polarization is fixed), polarization angles uniform incl. non-axis-aligned; shifts of 1..5 pixels and arbitrary "
         "real shifts; non-trivial = scattered field not identically zero; distinct by rounded case JSON")
 ASSUMPTIONS = ["T-matrix accepts only polarization (1,0): its rotation covariance is checked for 180 degrees (hologram and in-plane field components) and its mirror symmetry in the x-z plane",
